@@ -26,7 +26,12 @@ func init() {
 	props.Register(&props.Check{ID: "C20", Level: "exploration", Run: run, Replay: replay})
 }
 
-var opNames = []string{"signA", "signB", "signEarlyFail", "signLateFail", "verify", "content"}
+var opNames = []string{"signA", "signB", "signEarlyFail", "signLateFail", "verify", "content", "elsewhere"}
+
+// the first coreOps operations are the statement's alphabet; "elsewhere" (another
+// object of the same format signs something else - which must not show here) is
+// enumerated one level less deep in the thorough tier
+const coreOps = 6
 
 // Case is one history.
 type Case struct {
@@ -184,6 +189,20 @@ func execute(r *core.Run, c *Case) {
 	for i, op := range c.Ops {
 		r.Eval(1)
 		switch opNames[op] {
+		case "elsewhere":
+			// an unrelated object signs an unrelated request (other scheme, expiry,
+			// critical attributes): nothing of it may show on this object
+			other, _ := signature.NewEnvelope(mt)
+			signer, _ := sims.NewLocal(fx.other)
+			oreq := sims.BaseRequest(mt, signer, signature.SigningSchemeX509SigningAuthority)
+			oreq.Payload.Content = payloadOf("E")
+			oreq.Expiry = sims.SignTime.AddDate(1, 0, 0)
+			oreq.ExtendedSignedAttributes = []signature.Attribute{{Key: "io.elsewhere.a", Critical: true, Value: "1"}, {Key: "io.elsewhere.b", Critical: true, Value: "2"}}
+			core.Guard(func() {
+				if _, e := other.Sign(oreq); e == nil {
+					r.Count("signings-elsewhere", 1)
+				}
+			})
 		case "signA", "signB":
 			tag := opNames[op][4:]
 			req, _ := mkReq(tag, sims.SignTime, payloadOf(tag))
@@ -406,14 +425,14 @@ func mtName(mt string) string {
 }
 
 func run(r *core.Run) int {
-	r.Rule = "every operation history up to length 4 (quick) / 6 (thorough) over {sign A, sign B, sign failing before the signer is invoked (no signing time), sign failing after it (signing time before the leaf's validity; remote variant: chain for another key), verify, content} " +
+	r.Rule = "every operation history up to length 4 (quick) / 6 (thorough) over {sign A, sign B, sign failing before the signer is invoked (no signing time), sign failing after it (signing time before the leaf's validity; remote variant: chain for another key), verify, content, another object signs something else (thorough: in histories up to length 5)} " +
 		"(further late failures: remote signer whose chain or declared key spec does not fit, unreachable timestamp authority) from a new, a parsed-valid and a parsed-tampered object (COSE also: a parsed object whose one-certificate chain is a bare byte string, for which only repeatability and Verify-succeeds-implies-Content-succeeds are demanded), JWS and COSE, local and remote signer; the monitor tracks the set of reference states {None, Holds(X)} consistent with all outputs. non-trivial = the history has a Sign followed by a read; distinct by descriptor"
 	r.Assume("'no signature present' is recognised by the two not-found error types of the signature package")
 	fx = setup()
 	depth := r.Pick(4, 6)
 	var cases []*Case
-	var gen func(prefix []int, d int)
-	gen = func(prefix []int, d int) {
+	var gen func(prefix []int, hasE bool)
+	gen = func(prefix []int, hasE bool) {
 		if len(prefix) > 0 {
 			for _, mt := range []string{sims.JWS, sims.COSE} {
 				for _, remote := range []bool{false, true} {
@@ -426,14 +445,19 @@ func run(r *core.Run) int {
 				}
 			}
 		}
-		if d == 0 {
-			return
-		}
 		for o := range opNames {
-			gen(append(prefix, o), d-1)
+			e := hasE || o >= coreOps
+			max := depth
+			if e && !r.Quick() {
+				max = depth - 1 // histories with a signing elsewhere: one level less deep
+			}
+			if len(prefix)+1 > max {
+				continue
+			}
+			gen(append(prefix, o), e)
 		}
 	}
-	gen(nil, depth)
+	gen(nil, false)
 	r.Set("max_history_length", depth)
 	r.Set("histories", len(cases))
 	r.Exhaustive(true)
